@@ -1123,6 +1123,26 @@ pub fn mixed(s: &str) -> String {
         .map(|(i, c)| if i % 2 == 0 { c.to_ascii_lowercase() } else { c.to_ascii_uppercase() })
         .collect()
 }
+/// first letter upper case, the rest lower case (`Macro`)
+pub fn title(s: &str) -> String {
+    s.chars().enumerate().map(|(i, c)| if i == 0 { c.to_ascii_uppercase() } else { c.to_ascii_lowercase() }).collect()
+}
+/// upper case except the last letter (`MACRo`)
+pub fn last_lower(s: &str) -> String {
+    let n = s.chars().count();
+    s.chars().enumerate().map(|(i, c)| if i + 1 == n { c.to_ascii_lowercase() } else { c.to_ascii_uppercase() }).collect()
+}
+/// number of alternative keyword case modes (1 lower, 2 alternating from lower, 3 title, 4 upper but the last letter)
+pub const CASE_MODES: u8 = 4;
+pub fn recase(s: &str, mode: u8) -> String {
+    match mode {
+        1 => lower(s),
+        2 => mixed(s),
+        3 => title(s),
+        4 => last_lower(s),
+        _ => s.to_string(),
+    }
+}
 
 #[derive(Clone, Debug)]
 pub struct Rendered {
@@ -1206,11 +1226,7 @@ pub fn render_omit(lib: &LefLibrary, devs: &[Dev], omit: &[usize]) -> Rendered {
                         _ => None,
                     })
                     .unwrap_or(all_case);
-                if mode == 1 {
-                    s = lower(&s);
-                } else if mode == 2 {
-                    s = mixed(&s);
-                }
+                s = recase(&s, mode);
             }
             TK::Num => {
                 if let Some(alt) = devs.iter().find_map(|d| match d {
@@ -1249,8 +1265,9 @@ pub fn enumerate(lib: &LefLibrary, prior: &[Dev], window: Option<usize>) -> Vec<
         push(Dev::JoinProps, &mut out);
     }
     if !prior.iter().any(|d| matches!(d, Dev::AllCase(_))) {
-        push(Dev::AllCase(1), &mut out);
-        push(Dev::AllCase(2), &mut out);
+        for m in 1..=CASE_MODES {
+            push(Dev::AllCase(m), &mut out);
+        }
     }
     let tree = lib_tree(lib, &tree_opts(prior));
     let mut gs = vec![];
@@ -1275,8 +1292,9 @@ pub fn enumerate(lib: &LefLibrary, prior: &[Dev], window: Option<usize>) -> Vec<
         }
         match toks[at].k {
             TK::Key if !toks[at].opaque || toks[at].s == "ENDEXT" => {
-                push(Dev::Case { at, mode: 1 }, &mut out);
-                push(Dev::Case { at, mode: 2 }, &mut out);
+                for mode in 1..=CASE_MODES {
+                    push(Dev::Case { at, mode }, &mut out);
+                }
             }
             TK::Num => {
                 for alt in 0..spellings(toks[at].num.0, toks[at].num.1).len() {
@@ -1287,6 +1305,15 @@ pub fn enumerate(lib: &LefLibrary, prior: &[Dev], window: Option<usize>) -> Vec<
         }
     }
     out
+}
+
+fn case_name(m: u8) -> &'static str {
+    match m {
+        1 => "lower",
+        2 => "mixed (aBcD)",
+        3 => "title (Abcd)",
+        _ => "upper-but-last (ABCd)",
+    }
 }
 
 pub fn describe_dev(d: &Dev, r: &Rendered) -> String {
@@ -1300,11 +1327,10 @@ pub fn describe_dev(d: &Dev, r: &Rendered) -> String {
     match d {
         Dev::NoEndLibrary => "END LIBRARY omitted".into(),
         Dev::JoinProps => "PROPERTY pairs joined into one statement".into(),
-        Dev::AllCase(1) => "all keywords lower case".into(),
-        Dev::AllCase(_) => "all keywords mixed case".into(),
+        Dev::AllCase(m) => format!("all keywords in {} case", case_name(*m)),
         Dev::Perm { group, alt } => format!("sibling statements of group {group} permuted (alternative {alt})"),
         Dev::Gap { at, alt } => format!("gap before {}: {:?}", at_tok(*at), gap_text(&r.toks, *at, *alt)),
-        Dev::Case { at, mode } => format!("{} in {} case", at_tok(*at), if *mode == 1 { "lower" } else { "mixed" }),
+        Dev::Case { at, mode } => format!("{} in {} case", at_tok(*at), case_name(*mode)),
         Dev::Spell { at, .. } => format!("{} spelled `{}`", at_tok(*at), r.spelled.get(*at).cloned().unwrap_or_default()),
     }
 }
